@@ -129,15 +129,20 @@ def noninterference_case(chk, rng):
             for c in ("feat0", "feat1", "feat2"):
                 df2.loc[i, c] = df2.loc[i, c] + r.gauss(0.0, 0.3)
         p2 = mkdata.write_table(df2, d / "b.pin")
+        # optionally with a training-size cap (sub-sampling must still draw from the other folds only)
+        ntrain = len(df) - len(inside)
+        cap = rng.choice([None, int(0.6 * ntrain), int(0.9 * ntrain)])
         try:
-            _, m1, s1, _ = mokapot.brew(mkdata.read_dataset(p1), make_model(), test_fdr=0.2, folds=folds, rng=bseed)
-            _, m2, s2, _ = mokapot.brew(mkdata.read_dataset(p2), make_model(), test_fdr=0.2, folds=folds, rng=bseed)
+            _, m1, s1, _ = mokapot.brew(mkdata.read_dataset(p1), make_model(), test_fdr=0.2, folds=folds, rng=bseed,
+                                        subset_max_train=cap)
+            _, m2, s2, _ = mokapot.brew(mkdata.read_dataset(p2), make_model(), test_fdr=0.2, folds=folds, rng=bseed,
+                                        subset_max_train=cap)
         except Exception as e:
             chk.reject("brew-failed:" + type(e).__name__ + ":" + str(e)[:40])
             return
         chk.case(None, (seed, learner, folds, f), sample=dict(seed=seed, learner=learner, folds=folds, fold=f,
                                                             rows_changed=len(inside)))
-        chk.count("T2-learner", learner); chk.count("T2-folds", folds)
+        chk.count("T2-learner", learner); chk.count("T2-folds", folds); chk.count("T2-cap", "none" if cap is None else "capped")
         if not (m1[f].is_trained and m2[f].is_trained):
             chk.reject("fold-model-untrained")
             return
